@@ -7,6 +7,9 @@
 
 mod cache;
 mod cached_store;
+// Result-level de-duplication is not used any more (see `without_split_copies`): it cannot tell
+// a double-written copy from a genuine duplicate or from another series at the same timestamp.
+#[allow(dead_code)]
 mod dedup;
 mod engine;
 mod router;
@@ -198,6 +201,7 @@ impl QueryNode {
                 .metadata
                 .get_chunks_with_predicates(time_range, &predicates)
                 .await?;
+            let chunks = without_split_copies(self.metadata.as_ref(), chunks).await?;
             let bytes_scanned = chunks.iter().map(|chunk| chunk.size_bytes).sum::<u64>();
 
             // Pin chunks to prevent GC during query execution (RAII guard unpins on drop)
@@ -206,9 +210,6 @@ impl QueryNode {
                 .pin_registry
                 .as_ref()
                 .map(|r| r.pin(chunk_paths.clone()));
-
-            // Check if any shard is in a dual-write split phase (causes duplicate data)
-            let needs_dedup = self.metadata.has_active_split().await.unwrap_or(false);
 
             // Map metadata-selected chunks into the logical `metrics` table used by SQL.
             // Execute query with or without adaptive indexing while holding a stable
@@ -225,14 +226,7 @@ impl QueryNode {
                 self.engine.execute_plan(plan).await?
             };
 
-            // Deduplicate if any shard is in dual-write phase
-            let deduped = if needs_dedup {
-                dedup::dedup_batches(results)?
-            } else {
-                results
-            };
-
-            Ok((deduped, bytes_scanned))
+            Ok((results, bytes_scanned))
         }
         .await;
 
@@ -305,6 +299,32 @@ impl QueryNode {
     pub fn cache_stats(&self) -> CacheStats {
         self.cache.stats()
     }
+}
+
+/// Drop the chunks of shards that are the target of a split which has not been cut over yet.
+///
+/// While a shard is being split every row is written twice: into the old shard's chunks as
+/// before, and (dual-write, back-fill) into a chunk of the new shard on its side of the split
+/// point. Reading the old shard's copy only returns each row once - for projections, aggregates
+/// and genuine duplicates alike - which de-duplicating finished results cannot do.
+pub(crate) async fn without_split_copies(
+    metadata: &dyn MetadataClient,
+    chunks: Vec<crate::metadata::TimeIndexEntry>,
+) -> Result<Vec<crate::metadata::TimeIndexEntry>> {
+    let targets = metadata.pending_split_targets().await?;
+    if targets.is_empty() {
+        return Ok(chunks);
+    }
+    // chunk paths carry the id of the shard they were written for
+    // (same convention as MetadataClient::get_chunks_for_shard)
+    Ok(chunks
+        .into_iter()
+        .filter(|chunk| {
+            !targets
+                .iter()
+                .any(|shard| chunk.chunk_path.contains(shard.as_str()))
+        })
+        .collect())
 }
 
 fn is_table_not_found_error(error: &Error) -> bool {
